@@ -68,6 +68,7 @@ class Bench:
         if assign is not None:
             self.rx.channel = assign
         self.tx = self.tr = None
+        self.repeat_differs = None
         if need_lib_tx:
             self.tx, self.tr = H.mk_driver(w, "tx", cls=H.FakeBLE, cost=31 * US)
             self.tx.__enter__()
@@ -112,7 +113,18 @@ class Bench:
         if call[0] == "raw":
             tx.advertise(call[1], call[2])
         else:
-            tx.advertise(list(chunks))
+            # the application keeps its list of chunks and advertises it again (as it would on the next channel):
+            # both packets must be the same
+            lst = list(chunks)
+            tx.advertise(lst)
+            w.advance(300 * US)
+            if len(self.rr.rx_fifo) != n + 1:
+                raise HarnessError("advertisement not captured by the receiver radio")
+            first = self.rr.rx_fifo.pop()[1]
+            tx.advertise(lst)
+            w.advance(300 * US)
+            if len(self.rr.rx_fifo) == n + 1 and self.rr.rx_fifo[-1][1] != first:
+                self.repeat_differs = (first, self.rr.rx_fifo[-1][1])
         w.advance(300 * US)
         del w.airlog[:]
         if len(self.rr.rx_fifo) != n + 1:
@@ -390,6 +402,10 @@ def exec_adv(cache, seed, case):
     else:
         payload = pad32(ble.encode(case.get("header", ble.ADV_NONCONN_IND_RANDOM), mac, adv, b.ch), seed, len(adv))
         b.inject(payload)
+    if b.repeat_differs:
+        p1, p2 = b.repeat_differs
+        b.repeat_differs = None
+        fails.append(("tx-repeat-differs", "the same list of chunks advertised twice gave two different packets: %s / %s" % (bytes(p1).hex(), bytes(p2).hex()), feats))
     pdu, ok = ble.decode(payload, b.ch)
     exc, av, els = b.poll()
     if exc:
@@ -674,6 +690,17 @@ def dom_adversarial(tier, seed):
                 adv = FLAGS + ble.svc_battery(n % 256)
                 pl = pad32(ble.encode(0x42, H.pattern(6, seed, 2), adv, channel_index=other, length=ln if ln != 27 else None), seed, n)
                 cases.append(dict(kind="raw", hops=hops, payload=pl, feats={"whitened": other}))
+    # genuine advertisements of other devices that are longer than the 32 bytes the radio captures (PDU length 26..37):
+    # from length 28 on the CRC is cut off - a matching first byte or two of it must not be taken for a valid checksum
+    for hops in (0, 1, 2):
+        for ln in range(26, 38):
+            for k in range(6 if tier == "quick" else 40):
+                n += 1
+                mac = H.pattern(6, seed, n % 20)
+                body = mac + FLAGS + ble.ad(0xFF, rnd_bytes(ln - 6 - len(FLAGS) - 2, seed, n))
+                pdu = bytes([0x42, ln]) + body[:ln]
+                pl = pad32(ble.encode_pdu(pdu, (2, 26, 80)[hops])[:32], seed, n)
+                cases.append(dict(kind="raw", hops=hops, payload=pl, feats={"oversize": "len%d" % min(ln, 30)}))
     return split("adversarial", cases, 14, seed)
 
 
@@ -793,7 +820,11 @@ def w_queue(item, rep):
 def dom_queue(tier, seed):
     depth = 6 if tier == "quick" else 8
     pres = list(itertools.product(QOPS, repeat=2))
-    return [("queue", "que%03d" % i, [p], depth, seed) for i, p in enumerate(pres)]
+    items = [("queue", "que%03d" % i, [p], depth, seed) for i, p in enumerate(pres)]
+    # from 3, 4 and 5 elements already queued (non-initial states the depth bound does not reach): every continuation of 4 / 4 / 5 operations
+    for k, more in ((3, 4), (4, 4), (5, 5)):
+        items.append(("queue", "quefill%d" % k, [("rx-valid", "available") * k], 2 * k + more, seed))
+    return items
 
 
 # --------------------------------------------------------------------------- run / replay
@@ -846,7 +877,7 @@ def run(tier, seed, rep, only=None):
              "data, other headers and lengths; CRC-valid and arbitrary seed-derived payloads; every interleaving of "
              "rx-valid/rx-invalid/available/read of the stated depth.  states = distinct non-trivial cases (everything except "
              "repeated bad-CRC rejections); transitions = executed cases (queue: operations).",
-        bounds=dict(cases=counts, queue_depth=6 if tier == "quick" else 8, channels=[2, 26, 80]),
+        bounds=dict(cases=counts, queue_depth=6 if tier == "quick" else 8, queue_prefilled="3, 4, 5 elements queued, then every sequence of 4 / 4 / 5 operations", channels=[2, 26, 80]),
         trusted_base=["vf/sim.py (nRF24L01+ behavioural model: legacy ShockBurst reception into a 3-level RX FIFO, ghost transmitter)",
                       "vf/ref/ble.py (bit-serial BLE link layer, AD parser, GATT/Eddystone service data codecs; self-checked at start)"],
         assumptions=["bytes captured after the CRC are seed-derived",
